@@ -181,6 +181,7 @@ Section ExprInd.
   Hypothesis HMN : forall sep n e0 e1, P e0 -> P e1 -> P (EMultiPartsN sep n e0 e1).
   Hypothesis HLI : forall d e, P e -> P (EList d e).
   Hypothesis HUL : forall d e, P e -> P (EUniqueList d e).
+  Hypothesis HPT : forall vs e, P e -> P (EPartition vs e).
   Hypothesis HB : forall es, Forall P es -> P (EBatch es).
 
   Fixpoint expr_ind' (e : expr) : P e :=
@@ -208,6 +209,7 @@ Section ExprInd.
     | EMultiPartsN sep n e0 e1 => HMN sep n e0 e1 (expr_ind' e0) (expr_ind' e1)
     | EList d e => HLI d e (expr_ind' e)
     | EUniqueList d e => HUL d e (expr_ind' e)
+    | EPartition vs e => HPT vs e (expr_ind' e)
     | EBatch es => HB es ((fix go (l : list expr) : Forall P l :=
                              match l with [] => Forall_nil P | x :: l' => Forall_cons x (expr_ind' x) (go l') end) es)
     end.
@@ -300,6 +302,9 @@ Proof.
     unfold FilterParts at 1 2 3. rewrite !invoke_NoSpace_cb. rewrite !invoke_callback, !invoke_Filter, IHe. cbn [cparts].
     destruct (eval ci rm e _) as [m rs]. cbn [fst snd nospace_arg]. unfold add_nospace, set_nospace.
     cbn [messages nospace usage]. change (sm_add [] [star]) with (B [42]). rewrite sm_merge_star, sm_add_star_l. reflexivity.
+  - (* Partition *)
+    rewrite invoke_callback, invoke_Batch. cbn [map]. rewrite invoke_Filter, invoke_Retain, !invoke_to_a, IHe.
+    destruct (eval ci rm e c); reflexivity.
   - (* Batch *)
     rewrite invoke_Batch. f_equal. induction H as [|x l Hx Hl IH]; [reflexivity|].
     cbn [map]. rewrite Hx, IH. reflexivity.
